@@ -21,6 +21,7 @@ EXPLANATION = ("Sibling rules over every class in coba/learners/{bandit,corral,m
                "actions); MisguidedLearner.learn forwards every argument and **kwargs; Corral's info kwargs key is the name "
                "of its learn() parameter.")
 EXPLANATION += " R6: make_hashable dispatches on the Dense/Sparse ABCs and the ABC registrations are in place; R7: Corral's break points are exactly the poles of f and the returned weights are f's terms at the root."
+EXPLANATION += " R5 also: fixed-offset bracket probing (known finding); R8: the sampler never draws a zero-weight item; R9: Corral's smoothed weights sum to one (exact identity test)."
 
 UTL = "coba/learners/utilities.py"
 FILES = ["coba/learners/bandit.py", "coba/learners/corral.py", "coba/learners/misguided.py"]
